@@ -209,6 +209,19 @@ def gen_c16_item(r: random.Random, idx: int):
     elif gen_kind == "default2":
         it.generics, tparams = "<T = String, U = Vec<T>>", ["T", "U"]
 
+    def sufficient_bounds(attrs):
+        """replace a picked `bound` by predicates that are enough for the impl to compile, in one attribute or one per
+        parameter (the lists of several attributes add up); kept in attributes of their own"""
+        if not tparams or not any(k == "bound" for _sp, k, _t in attrs) or r.random() < 0.4:
+            return attrs
+        out = [a for a in attrs if a[1] != "bound"]
+        if r.random() < 0.4 or len(tparams) == 1:
+            out.append((r.choice(["ts", "ts", "serde"]), "!bound", "bound = " + q(", ".join(f"{p}: TS" for p in tparams))))
+        else:
+            for p in tparams:
+                out.insert(r.randrange(len(out) + 1), (r.choice(["ts", "ts", "serde"]), "!bound", f'bound = "{p}: TS"'))
+        return out
+
     def ftype():
         ts = list(FIELD_TYPES)
         if tparams:
@@ -273,7 +286,7 @@ def gen_c16_item(r: random.Random, idx: int):
         it.shape = r.choice(["unit", "newtype", "tuple", "named", "named", "named"])
         if it.shape == "unit" and (tparams or gen_kind in ("life", "life2")):
             it.shape = "named"
-        it.cattrs = pick(struct_keys(r, it.shape == "named"), "struct")
+        it.cattrs = sufficient_bounds(pick(struct_keys(r, it.shape == "named"), "struct"))
         if tparams and r.random() < 0.2:
             it.cattrs.append(("ts", "concrete", f"concrete({tparams[0]} = i32)"))
         it.fields = mk_fields(it.shape)
@@ -291,7 +304,7 @@ def gen_c16_item(r: random.Random, idx: int):
         field_rules(it.fields, it.shape, reachable=not ({"type", "as"} & ks))
     else:
         it.kind = "enum"
-        it.cattrs = pick(enum_keys(r), "enum")
+        it.cattrs = sufficient_bounds(pick(enum_keys(r), "enum"))
         ks = keyset(it.cattrs)
         for a in ("type", "as"):
             for b in ("rename_all", "rename_all_fields", "tag", "content", "untagged") + (("as",) if a == "type" else ()):
